@@ -72,6 +72,31 @@ impl Space {
         // Total memory in MB (minimum 1MB for rounding)
         (csp_memory_mb + lp_memory_mb).max(1)
     }
+
+    /// Extract the assignment of a fully assigned space, with the statistics gathered in it
+    fn into_solution(self) -> Solution {
+        let stats = crate::core::solution::SolveStats {
+            propagation_count: self.get_propagation_count(),
+            node_count: self.get_node_count(),
+            solve_time: std::time::Duration::ZERO, // TODO: Track solve time in Space
+            variables: self.vars.count(),
+            constraint_count: self.props.count(),
+            peak_memory_mb: self.estimate_memory_mb(),
+            int_variables: self.vars.int_var_count,
+            bool_variables: self.vars.bool_var_count,
+            float_variables: self.vars.float_var_count,
+            set_variables: self.vars.set_var_count,
+            propagators: self.props.count(),
+            lp_solver_used: self.lp_solver_used,
+            lp_constraint_count: self.lp_constraint_count,
+            lp_variable_count: self.lp_variable_count,
+            lp_stats: self.lp_stats,
+            init_time: std::time::Duration::ZERO,
+            objective: 0.0,
+            objective_bound: 0.0,
+        };
+        self.vars.into_solution_with_stats(stats)
+    }
 }
 
 /// Perform search, iterating over assignments that satisfy all constraints.
@@ -117,7 +142,8 @@ pub fn search_with_timeout_and_memory<M: Mode>(
 ) -> Search<M> {
     // ===== LP SOLVER INTEGRATION (Root Node Only) =====
     // Try LP solving at root node if suitable linear system exists
-    let (mut vars, props) = (vars, props);
+    // Variables fixed to the vertex of the LP relaxation, if it could be applied to the domains
+    let mut lp_vertex_vars: Option<Vars> = None;
     
     // Initialize LP tracking fields for Space
     let mut lp_solver_used = false;
@@ -261,22 +287,22 @@ pub fn search_with_timeout_and_memory<M: Mode>(
                         eprintln!("LP: Solution status = {:?}, objective = {}", solution.status, solution.objective);
                     }
                     
-                    // Apply LP solution to tighten variable bounds
+                    // Fix a copy of the variables to the LP vertex. The vertex is only tried first: it need not
+                    // respect integrality, the float step grid or the constraints the LP does not see, so a
+                    // vertex that cannot be applied leaves the root as it is.
                     use crate::variables::views::Context;
                     let mut events = Vec::new();
-                    let mut vars_mut = vars;
-                    {
-                        let mut ctx = Context::new(&mut vars_mut, &mut events);
-                        if crate::lpsolver::csp_integration::apply_lp_solution(&linear_system, &solution, &mut ctx).is_none() {
-                            if LP_DEBUG {
-                                eprintln!("LP: Failed to apply solution (propagation failure)");
-                            }
-                            return Search::Done(None);
+                    let mut vars_lp = vars.clone();
+                    let mut ctx = Context::new(&mut vars_lp, &mut events);
+                    if crate::lpsolver::csp_integration::apply_lp_solution(&linear_system, &solution, &mut ctx).is_some() {
+                        if !events.is_empty() {
+                            lp_vertex_vars = Some(vars_lp);
                         }
-                    }
-                    vars = vars_mut;
-                    if LP_DEBUG {
-                        eprintln!("LP: Successfully applied LP bounds");
+                        if LP_DEBUG {
+                            eprintln!("LP: Successfully applied LP bounds");
+                        }
+                    } else if LP_DEBUG {
+                        eprintln!("LP: Failed to apply solution (vertex outside the domains)");
                     }
                 }
                 Err(e) => {
@@ -290,14 +316,7 @@ pub fn search_with_timeout_and_memory<M: Mode>(
     }
     // ===== End LP Integration =====
 
-    // Schedule all propagators during initial propagation step
-    let agenda = Agenda::with_props(props.get_prop_ids_iter());
-
-    // Propagate constraints until search is stalled or a solution is found
-    if LP_DEBUG {
-        eprintln!("LP: Starting initial propagation...");
-    }
-    let Some((is_stalled, space)) = propagate(Space {
+    let root = Space {
         vars,
         props,
         trail: trail::Trail::new(),
@@ -305,7 +324,36 @@ pub fn search_with_timeout_and_memory<M: Mode>(
         lp_constraint_count,
         lp_variable_count,
         lp_stats: lp_stats_opt,
-    }, agenda) else {
+    };
+
+    // Try the LP vertex first: a solution found there attains the LP bound on the objective. When the
+    // vertex is refuted by propagation, or the search below it finds nothing, the root is searched.
+    if let Some(vars_lp) = lp_vertex_vars {
+        let vertex = Space { vars: vars_lp, ..root.clone() };
+        let agenda = Agenda::with_props(vertex.props.get_prop_ids_iter());
+        match propagate(vertex, agenda) {
+            Some((true, space)) => {
+                let mut engine = DefaultEngine::with_timeout_and_memory(space, mode, timeout, memory_limit_mb);
+                engine.fallback = Some(root);
+                return Search::Stalled(Box::new(engine));
+            }
+            Some((false, space)) => return Search::Done(Some(space)),
+            None => {
+                if LP_DEBUG {
+                    eprintln!("LP: Vertex refuted by initial propagation, searching the root");
+                }
+            }
+        }
+    }
+
+    // Schedule all propagators during initial propagation step
+    let agenda = Agenda::with_props(root.props.get_prop_ids_iter());
+
+    // Propagate constraints until search is stalled or a solution is found
+    if LP_DEBUG {
+        eprintln!("LP: Starting initial propagation...");
+    }
+    let Some((is_stalled, space)) = propagate(root, agenda) else {
         if LP_DEBUG {
             eprintln!("LP: Initial propagation returned None (infeasible)");
         }
@@ -387,29 +435,7 @@ impl<M: Mode> Iterator for Search<M> {
     fn next(&mut self) -> Option<Self::Item> {
         match self {
             Self::Stalled(engine) => engine.next(),
-            Self::Done(space_opt) => space_opt.take().map(|space| {
-                let stats = crate::core::solution::SolveStats {
-                    propagation_count: space.get_propagation_count(),
-                    node_count: space.get_node_count(),
-                    solve_time: std::time::Duration::ZERO, // TODO: Track solve time in Space
-                    variables: space.vars.count(),
-                    constraint_count: space.props.count(),
-                    peak_memory_mb: space.estimate_memory_mb(),
-                    int_variables: space.vars.int_var_count,
-                    bool_variables: space.vars.bool_var_count,
-                    float_variables: space.vars.float_var_count,
-                    set_variables: space.vars.set_var_count,
-                    propagators: space.props.count(),
-                    lp_solver_used: space.lp_solver_used,
-                    lp_constraint_count: space.lp_constraint_count,
-                    lp_variable_count: space.lp_variable_count,
-                    lp_stats: space.lp_stats,
-                    init_time: std::time::Duration::ZERO,
-                    objective: 0.0,
-                    objective_bound: 0.0,
-                };
-                space.vars.into_solution_with_stats(stats)
-            }),
+            Self::Done(space_opt) => space_opt.take().map(Space::into_solution),
         }
     }
 }
@@ -432,6 +458,9 @@ pub struct Engine<M, B> {
     // Resource cleanup support
     cleanup_callbacks: Vec<Box<dyn FnOnce() + Send>>,
     is_interrupted: bool,
+    /// Root space to search when the space the engine started from (the root fixed to the vertex of
+    /// the LP relaxation) is exhausted without yielding a solution
+    fallback: Option<Space>,
 }
 
 /// Default Engine with SplitOnUnassigned for backwards compatibility
@@ -453,6 +482,7 @@ impl<M> DefaultEngine<M> {
             timeout_check_interval: 10000, // Check every 10K iterations for minimal overhead
             cleanup_callbacks: Vec::new(),
             is_interrupted: false,
+            fallback: None,
         }
     }
 
@@ -471,6 +501,7 @@ impl<M> DefaultEngine<M> {
             timeout_check_interval: 10000, // Check every 10K iterations for minimal overhead
             cleanup_callbacks: Vec::new(),
             is_interrupted: false,
+            fallback: None,
         }
     }
 
@@ -494,6 +525,7 @@ impl<M> DefaultEngine<M> {
             timeout_check_interval: 10000, // Check every 10K iterations for minimal overhead
             cleanup_callbacks: Vec::new(),
             is_interrupted: false,
+            fallback: None,
         }
     }
 }
@@ -652,28 +684,11 @@ impl<M: Mode, B: Iterator<Item = (Space, crate::constraints::props::PropId)>> It
                         // Mode object may update its internal state when new solutions are found
                         self.mode.on_solution(&space.vars);
 
+                        // The first solution settles that the fallback root is not needed
+                        self.fallback = None;
+
                         // Extract solution assignment for all decision variables with current statistics
-                        let stats = crate::core::solution::SolveStats {
-                            propagation_count: space.get_propagation_count(),
-                            node_count: space.get_node_count(),
-                            solve_time: std::time::Duration::ZERO, // TODO: Track solve time in Engine
-                            variables: space.vars.count(),
-                            constraint_count: space.props.count(),
-                            peak_memory_mb: space.estimate_memory_mb(),
-                            int_variables: space.vars.int_var_count,
-                            bool_variables: space.vars.bool_var_count,
-                            float_variables: space.vars.float_var_count,
-                            set_variables: space.vars.set_var_count,
-                            propagators: space.props.count(),
-                            lp_solver_used: space.lp_solver_used,
-                            lp_constraint_count: space.lp_constraint_count,
-                            lp_variable_count: space.lp_variable_count,
-                            lp_stats: space.lp_stats,
-                            init_time: std::time::Duration::ZERO,
-                            objective: 0.0,
-                            objective_bound: 0.0,
-                        };
-                        return Some(space.vars.into_solution_with_stats(stats));
+                        return Some(space.into_solution());
                     }
                 }
             }
@@ -681,6 +696,20 @@ impl<M: Mode, B: Iterator<Item = (Space, crate::constraints::props::PropId)>> It
             // Pop from stack if we have anything there
             if let Some(parent_iter) = self.stack.pop() {
                 self.branch_iter = parent_iter;
+            } else if let Some(root) = self.fallback.take() {
+                // Nothing was found below the LP vertex: search the root the vertex was taken from
+                let agenda = Agenda::with_props(root.props.get_prop_ids_iter());
+                match propagate(root, agenda) {
+                    Some((true, space)) => {
+                        self.current_stats = Some((space.get_propagation_count(), space.get_node_count()));
+                        self.branch_iter = (self.branching_factory)(space);
+                    }
+                    Some((false, space)) => {
+                        self.mode.on_solution(&space.vars);
+                        return Some(space.into_solution());
+                    }
+                    None => return None,
+                }
             } else {
                 return None;
             }
